@@ -404,6 +404,7 @@ type FnCtx struct {
 	rangeLen      map[ast.Node]string
 	callOrds      map[*ast.CallExpr]int
 	siteOrds      map[*ast.CallExpr]int
+	mapSeqOf      map[ast.Node]*Val // range-over-map loops: the key sequence they run over
 	deferEnd      map[*ast.CallExpr]token.Pos
 	nocontract    map[string]bool
 	externNoCon   map[string]bool
